@@ -271,6 +271,8 @@ def run(op, spec1, spec2, arg, prefix=(), force=None, simplify=True):
         c1, c2 = mk_contract(spec1), mk_contract(spec2)
         if env.trace:
             raise ExplorerError("operand construction consumed a choice point")
+        env.snapshot = _snap(c1, c2)
+        env.operands = (c1, c2)
         try:
             if op == "compose":
                 res = c1.compose(c2, [Var(x) for x in arg], simplify)
@@ -291,6 +293,15 @@ def run(op, spec1, spec2, arg, prefix=(), force=None, simplify=True):
         return env, "returned", res, c1, c2
     finally:
         ENV = None
+
+
+def _snap(c1, c2):
+    return tuple((tuple(t.name for t in c.a.terms), tuple(t.name for t in c.g.terms), tuple(v.name for v in c.inputvars),
+                  tuple(v.name for v in c.outputvars)) for c in (c1, c2))
+
+
+def operands_modified(env):
+    return _snap(*env.operands) != env.snapshot
 
 
 def obligations(op, c1, c2, res, env):
